@@ -17,6 +17,10 @@ class HarnessError(Exception):
     """A fault of the machinery (never of moclo)."""
 
 
+class AbortUnit(BaseException):
+    """Too many real calls of this unit did not terminate: stop the unit (recorded as a cap), keep its violations."""
+
+
 def fingerprint(prop, sub, cause):
     return "{}/{}/{}".format(prop, sub, cause)
 
@@ -109,7 +113,15 @@ def _j(x):
 
 # -- watchdog ----------------------------------------------------------------------------
 
-WATCHDOG_S = float(os.environ.get("MCV_WATCHDOG_S", "20"))
+WATCHDOG_S = float(os.environ.get("MCV_WATCHDOG_S", "5"))
+MAX_TIMEOUTS_PER_UNIT = 3
+_timeouts = [0]
+
+
+def note_timeout():
+    _timeouts[0] += 1
+    if _timeouts[0] >= MAX_TIMEOUTS_PER_UNIT:
+        raise AbortUnit()
 
 
 def _on_alarm(signum, frame):
@@ -141,8 +153,11 @@ def _run_unit(args):
     idx, unit = args
     st = Stats(_CHECK.ID)
     t0 = time.time()
+    _timeouts[0] = 0
     try:
         _CHECK.run_unit(unit, st, _TIER)
+    except AbortUnit:
+        st.caps.append("unit {} stopped after {} non-terminating calls".format(idx, MAX_TIMEOUTS_PER_UNIT))
     except ScenarioTimeout:
         st.violation("watchdog", "nontermination-in-unit", dict(unit=_j(unit)), "termination", "timeout")
     except HarnessError as e:
@@ -174,7 +189,7 @@ def explore(check, tier, jobs=None, seed=0, progress=False):
         pool = None
     else:
         ctx = multiprocessing.get_context("fork")
-        pool = ctx.Pool(min(jobs, len(work)))
+        pool = ctx.Pool(min(jobs, len(work)), maxtasksperchild=1 if getattr(check, "FRESH_PROCESS_PER_UNIT", False) else None)
         results = pool.imap_unordered(_run_unit, work, chunksize=1)
     done = 0
     by_idx = {}
@@ -235,3 +250,35 @@ def bfs(initial_hist, enabled, build, canon, depth, on_edge):
                 else:
                     closed = False
     return len(seen), ntrans, maxd, closed
+
+
+def isolated(fn, *args):
+    """Run fn(*args) in a forked child of this process and return its (picklable) result.
+    Used where a scenario must start from a state no earlier scenario can have touched."""
+    import pickle
+    r, w = os.pipe()
+    pid = os.fork()
+    if pid == 0:
+        code = 0
+        try:
+            os.close(r)
+            try:
+                out = ("ok", fn(*args))
+            except BaseException as e:  # noqa
+                out = ("error", "{}: {}".format(type(e).__name__, e), traceback.format_exc())
+            with os.fdopen(w, "wb") as f:
+                pickle.dump(out, f)
+        except BaseException:
+            code = 1
+        finally:
+            os._exit(code)
+    os.close(w)
+    with os.fdopen(r, "rb") as f:
+        data = f.read()
+    os.waitpid(pid, 0)
+    if not data:
+        raise HarnessError("isolated child died without a result")
+    out = pickle.loads(data)
+    if out[0] == "error":
+        raise HarnessError("isolated child failed: " + out[1] + "\n" + out[2])
+    return out[1]
